@@ -88,7 +88,7 @@ PROPS["C08"] = dict(
               "C08_code_a_panicking_reload_is_survived", "C08_old_visit_diverges",
               "C08_executable_model_never_deadlocks", "C08_executable_model_bounded_work",
               "C08_executable_model_rests_only_when_all_returned"],
-    engines=[("answers", ["--parts", "shapes,panic,flood,conc,gone,deep"])],
+    engines=[("answers", ["--parts", "shapes,panic,flood,conc,gone,deep,static"])],
     thorough_features=[["parking_lot"]],
     disagreement_is_violation=True,
     rule="answers: (B) every digraph of get_cached look-ups on <=2 (quick) / <=3 (thorough) TNode assets "
@@ -382,7 +382,8 @@ sys_prop(
      "C02_clear_empties", "C02_code_keys_compare_type_and_id", "C02_code_maps_address_the_given_key",
      "C02_code_keys_carry_the_id_as_given", "C02_code_clear_empties_the_whole_map", "C02_code_lookup_before_load",
      "C02_failed_plain_load_adds_nothing", "C02_failed_load_inserts_nothing_itself",
-     "C02_code_add_asset_loads_then_inserts", "C02_code_directory_loads_go_through_the_cache"],
+     "C02_code_add_asset_loads_then_inserts", "C02_code_directory_loads_go_through_the_cache",
+     "C02_code_caches_load_through_the_default_add_asset"],
     ["Private", "Deps", "CacheMap", "LocalMap", "Anycache", "Dirs"], ["handle-changed", "key-type-confusion", "racers-disagree"],
     extra_engines=[("racediff", ["--parts", "reentrant"])])
 
@@ -448,7 +449,8 @@ sys_prop(
      "C05_late_binding_goes_stale", "C05_recording_as_modelled",
      "C05_code_pass_order_is_one_reversed_post_order", "C05_code_events_reach_the_pass",
      "C05_reload_relearns_dependencies", "C05_a_pass_skips_nothing_that_depends_on_a_change",
-     "C05_reload_installs_what_the_source_holds", "C05_fresh_load_returns_what_the_source_holds"],
+     "C05_reload_installs_what_the_source_holds", "C05_fresh_load_returns_what_the_source_holds",
+     "C05_code_registrations_reach_the_graph"],
     ["Deps", "HotReloading", "Records", "Anycache", "Asset", "Paths"], ["late-bound-stale", "stale-after-pass"], mode="hot",
     assumptions=["I1: a change counts as notified once the reloader has dequeued the event (settle barrier)",
                  "I2/I3: dependencies are those of the load that produced the cached value; a get_cached that "
@@ -675,10 +677,10 @@ PROPS["C04"] = dict(
     level_note="Trusted: Coq kernel+VM, the harness (tree generator, archive writers of the zip and tar crates, "
                "answer printers), the checkers in Corr/SrcCheck.v.  I5: archives with the same member path "
                "twice are not generated.",
-    gen=["Archive", "Private", "Deps", "Embed", "Fs"],
+    gen=["Archive", "Private", "Deps", "Embed", "Fs", "Watcher"],
     model_files=["Ref/Tree.v", "Ref/Archive.v", "Ref/Embed.v", "Corr/Common.v", "Corr/SrcCheck.v"],
     model_targets=["Corr/SrcCheck.vo"],
-    proof_files=["Proofs/Tree.v", "Proofs/Archive.v", "Proofs/Embed.v", "Tie/Archive.v", "Tie/Graph.v", "Tie/Embed.v", "Tie/Fs.v", "Props/C04.v"],
+    proof_files=["Proofs/Tree.v", "Proofs/Archive.v", "Proofs/Embed.v", "Tie/Archive.v", "Tie/ArchivePath.v", "Tie/Watcher.v", "Tie/Graph.v", "Tie/Embed.v", "Tie/Fs.v", "Props/C04.v"],
     proof_targets=["Props/C04.vo"],
     props_module="Props.C04",
     theorems=["C04_listing_is_exactly_the_direct_children", "C04_listed_entries_are_readable_under_their_id",
@@ -687,7 +689,7 @@ PROPS["C04"] = dict(
               "C04_archive_index_answers_like_the_tree", "C04_member_order_is_irrelevant",
               "C04_implied_directory_members_are_redundant", "C04_archive_nonvacuous",
               "C04_embedded_tables_are_an_archive_index", "C04_embedded_answers_like_the_tree",
-              "C04_code_filesystem_source"],
+              "C04_code_filesystem_source", "C04_code_archive_paths_parsed_as_modelled"],
     engines=[("srcdiff", [])],
     rule=SRC_RULE,
     trusted_base=["zip / tar writers used to build the archives"],
@@ -708,15 +710,15 @@ PROPS["C11"] = dict(
                "equality inside Coq); `an unreadable sub-directory is skipped without hiding its siblings` is "
                "the sysdiff correspondence with Ref.Sys.load_rec_dir_value.",
     level_note="Trusted: as C04; the sort order compared is byte order of the joined ids.",
-    gen=["Dirs", "Flags", "Archive", "Embed"],
+    gen=["Dirs", "Flags", "Archive", "Embed", "Watcher", "Private"],
     model_files=["Ref/Tree.v", "Ref/Archive.v", "Corr/Common.v", "Corr/SrcCheck.v", "Ref/Load.v", "Ref/Sys.v", "Corr/SysCheck.v"],
     model_targets=["Corr/SrcCheck.vo", "Corr/SysCheck.vo"],
-    proof_files=["Proofs/Tree.v", "Tie/Dirs.v", "Tie/Archive.v", "Tie/Embed.v", "Props/C11.v"],
+    proof_files=["Proofs/Tree.v", "Tie/Dirs.v", "Tie/Archive.v", "Tie/ArchivePath.v", "Tie/Watcher.v", "Tie/Embed.v", "Props/C11.v"],
     proof_targets=["Props/C11.vo"],
     props_module="Props.C11",
     theorems=["C11_dir_ids_are_exactly_the_matching_files", "C11_missing_directory_is_an_error",
               "C11_rec_dir_ids_is_the_union", "C11_code_as_specified", "C11_code_archives_list_each_entry_once",
-              "C11_code_embed_macro_lists_every_entry"],
+              "C11_code_embed_macro_lists_every_entry", "C11_code_archive_paths_parsed_as_modelled"],
     engines=[("srcdiff", []), ("sysdiff", ["--mode", "cold", "--cases", "200"])],
     relevant_classes=["iter-mismatch"],
     rule=SRC_RULE,
